@@ -45,7 +45,8 @@ class Refuse(Exception):
 class FuncTranslator:
     """One module of plain functions -> Lean.  All functions share the result type `Res`."""
 
-    def __init__(self, fname, namespace):
+    def __init__(self, fname, namespace, allow_sub=False):
+        self.allow_sub = allow_sub
         self.fname = fname
         self.ns = namespace
         self.out = []
@@ -59,13 +60,19 @@ class FuncTranslator:
         params = [a.arg for a in fn.args.args]
         types = {}
         for a in fn.args.args:
-            ann = a.annotation.id if isinstance(a.annotation, ast.Name) else None
+            ann = a.annotation.id if isinstance(a.annotation, ast.Name) else (
+                a.annotation.value if isinstance(a.annotation, ast.Constant) and isinstance(a.annotation.value, str) else None)
             if ann == 'int':
                 types[a.arg] = 'Nat'
             elif ann == 'list':
                 types[a.arg] = 'List Nat'
+            elif ann == 'float':
+                types[a.arg] = 'Rat'
+            elif ann in ('Final[float[:]]', 'float[:]'):
+                types[a.arg] = 'Nat → Rat'          # a 1-D float array read through its index; its length is a separate field
+                types[a.arg + '_len'] = 'Nat'
             else:
-                self.refuse(a, 'parameter %s: annotation must be int or list' % a.arg)
+                self.refuse(a, 'parameter %s: annotation must be int, float, list or a 1-D float array' % a.arg)
         changed = True
         assigned = []
         for n in ast.walk(fn):
@@ -84,6 +91,7 @@ class FuncTranslator:
                 if types[v] == 'Nat' and self.is_rat(n.value, types):
                     types[v] = 'Rat'
                     changed = True
+        params = [q for p_ in params for q in ([p_, p_ + '_len'] if types[p_] == 'Nat → Rat' else [p_])]
         order = params + [v for v, _ in assigned if v not in params]
         seen, ordered = set(), []
         for v in order:
@@ -97,6 +105,8 @@ class FuncTranslator:
             if isinstance(n, ast.BinOp) and isinstance(n.op, ast.Div):
                 return True
             if isinstance(n, ast.Name) and types.get(n.id) == 'Rat':
+                return True
+            if isinstance(n, ast.Subscript) and isinstance(n.value, ast.Name) and types.get(n.value.id) == 'Nat → Rat':
                 return True
         return False
 
@@ -118,6 +128,13 @@ class FuncTranslator:
             if t == 'Nat' and want == 'Rat':
                 return '(σ.%s : Rat)' % e.id
             self.refuse(e, 'Rat value %s used where an integer is needed' % e.id)
+        if isinstance(e, ast.Subscript) and isinstance(e.value, ast.Name) and types.get(e.value.id) == 'Nat → Rat':
+            if want != 'Rat':
+                self.refuse(e, 'array element used as an integer')
+            return '(σ.%s %s)' % (e.value.id, self.expr(e.slice, types, 'Nat'))
+        if isinstance(e, ast.Call) and isinstance(e.func, ast.Name) and e.func.id == 'len' and len(e.args) == 1 \
+                and isinstance(e.args[0], ast.Name) and types.get(e.args[0].id) == 'Nat → Rat':
+            return 'σ.%s_len' % e.args[0].id if want == 'Nat' else '(σ.%s_len : Rat)' % e.args[0].id
         if isinstance(e, ast.Subscript):
             if not (isinstance(e.value, ast.Name) and types.get(e.value.id) == 'List Nat'
                     and isinstance(e.slice, ast.Constant) and isinstance(e.slice.value, int) and e.slice.value >= 0):
@@ -130,6 +147,8 @@ class FuncTranslator:
                     self.refuse(e, 'true division used as an integer')
                 return '(%s / %s)' % (self.expr(e.left, types, 'Rat'), self.expr(e.right, types, 'Rat'))
             ops = {ast.Add: '+', ast.Mult: '*', ast.FloorDiv: '/', ast.Mod: '%'}
+            if self.allow_sub:
+                ops[ast.Sub] = '-'                     # truncated subtraction on naturals: recorded in the header of the generated file
             if type(e.op) not in ops:
                 self.refuse(e, 'operator %s is outside the subset (naturals: + * // %% only)' % type(e.op).__name__)
             if want == 'Rat' and type(e.op) in (ast.FloorDiv, ast.Mod):
@@ -208,6 +227,8 @@ class FuncTranslator:
             v = s.value
             if isinstance(v, ast.Tuple):
                 return pad + self.wrap('.ret [%s]' % ', '.join(self.expr(x, types, 'Nat') for x in v.elts))
+            if isinstance(v, ast.Name) and types.get(v.id) == 'Nat':
+                return pad + self.wrap('.ret [σ.%s]' % v.id)
             if isinstance(v, ast.Call) and isinstance(v.func, ast.Name) and v.func.id in self.funcs:
                 if v.keywords:
                     self.refuse(s, 'keyword arguments')
@@ -266,14 +287,17 @@ class FuncTranslator:
             self.loops = [t.replace(old + ' ', new + ' ') for t in self.loops]
         self.loops = self.loops[::-1]      # inner loops are created after the loop that contains them: define them first
         self.all_loops += self.loops
-        fields = '\n'.join('  %s : %s := %s' % (v, types[v], '[]' if types[v] == 'List Nat' else '0') for v in order)
+        dflt = {'List Nat': '[]', 'Nat → Rat': 'fun _ => 0'}
+        fields = '\n'.join('  %s : %s := %s' % (v, types[v], dflt.get(types[v], '0')) for v in order)
+        self.has_fun = any(types[v] == 'Nat → Rat' for v in order)
         init = ', '.join('%s := %s' % (p, p) for p in params)
         sig = ' '.join('(%s : %s)' % (p, types[p]) for p in params)
         self.funcs[fn.name] = params
-        return ('namespace %s_\n/-- all local variables of `%s` (%s:%d) -/\nstructure St where\n%s\nderiving Repr\n\n%s\n'
-                '/-- `%s(%s)` with fuel `F` for every loop -/\ndef run (F : Nat) %s : Out :=\n  let σ : St := { %s }\n%s\nend %s_\n'
-                % (fn.name, fn.name, self.fname, fn.lineno, fields, '\n'.join(self.loops), fn.name, ', '.join(params), sig,
-                   init, body, fn.name))
+        tmpl = ('namespace %s_\n/-- all local variables of `%s` (%s:%d) -/\nstructure St where\n%s\n' +
+                ('' if self.has_fun else 'deriving Repr\n') + '\n%s\n'
+                '/-- `%s(%s)` with fuel `F` for every loop -/\ndef run (F : Nat) %s : Out :=\n  let σ : St := { %s }\n%s\nend %s_\n')
+        return tmpl % (fn.name, fn.name, self.fname, fn.lineno, fields, '\n'.join(self.loops), fn.name, ', '.join(params), sig,
+                       init, body, fn.name)
 
     def module(self, src):
         tree = ast.parse(src)
@@ -614,18 +638,44 @@ def translate_grid(repo):
     return out
 
 
+def translate_find_span(repo):
+    """pygyro/splines/spline_eval_funcs.py: `nu_find_span` only (the other kernels write into arrays)"""
+    rel = 'pygyro/splines/spline_eval_funcs.py'
+    src = open(os.path.join(repo, rel)).read()
+    tree = ast.parse(src)
+    fns = [n for n in tree.body if isinstance(n, ast.FunctionDef) and n.name == 'nu_find_span']
+    if len(fns) != 1:
+        raise Refuse(tree, 'nu_find_span not found', rel)
+    tr = FuncTranslator(rel, 'PygyroVerif.Gen.FindSpan', allow_sub=True)
+    tr.all_loops = []
+    body = tr.function(fns[0])
+    fsrc = ast.get_source_segment(src, fns[0]) or ''
+    head = ('/-\nGENERATED by harness/translate_pure.py from %s, function nu_find_span (sha256 of its source %s) — do not edit.\n'
+            'Shallow embedding: the `while` is a fuel-recursive function over the record `St` of all locals; the float array `knots` is read\n'
+            'through `Nat → Rat` with its length in `knots_len`; floats are exact rationals (only comparisons are made); `-` on naturals is\n'
+            'truncated subtraction (`len(knots)-1-degree` underflows in Python only for arrays shorter than degree+1).  Core Lean only.\n-/\n'
+            'namespace PygyroVerif.Gen.FindSpan\n\n'
+            '/-- outcome of a call: `return`, `raise`, or the model artefact `outOfFuel` -/\n'
+            'inductive Out where\n  | ret (v : List Nat)\n  | raised (exc : String)\n  | outOfFuel\nderiving Repr, DecidableEq\n\n'
+            '/-- outcome of a loop: left normally with state `s` (also by `break`), or the call is over -/\n'
+            'inductive Res (α : Type) where\n  | ok (s : α)\n  | done (o : Out)\n\n'
+            % (rel, hashlib.sha256(fsrc.encode()).hexdigest()[:16]))
+    return head + body + '\nend PygyroVerif.Gen.FindSpan\n'
+
+
 def main():
     ap = argparse.ArgumentParser()
     ap.add_argument('--repo', default=os.environ.get('PYGYRO_REPO', '/repo'))
     ap.add_argument('--out', default=DEFAULT_OUT)
     ap.add_argument('--quiet', action='store_true')
-    ap.add_argument('--only', choices=['procgrid', 'blocks', 'grid'], help='translate one target only')
+    ap.add_argument('--only', choices=['procgrid', 'blocks', 'grid', 'findspan'], help='translate one target only')
     a = ap.parse_args()
     os.makedirs(a.out, exist_ok=True)
     status = 0
     for key, fname, fn in (('procgrid', 'ProcGridGen.lean', lambda: translate_process_grid(a.repo)[0]),
                            ('blocks', 'BlocksGen.lean', lambda: translate_layout_blocks(a.repo)),
-                           ('grid', 'GridGen.lean', lambda: translate_grid(a.repo))):
+                           ('grid', 'GridGen.lean', lambda: translate_grid(a.repo)),
+                           ('findspan', 'FindSpanGen.lean', lambda: translate_find_span(a.repo))):
         if a.only and a.only != key:
             continue
         path = os.path.join(a.out, fname)
